@@ -34,7 +34,13 @@ Import ListNotations.
 
 KEYS = ['result', 'k1', 'k2']          # key atoms 0..2, None = whole section
 KWARGS = ['x', 'y']                    # keyword names of the injected functions
-FUNC_NAMES = ['f', 'f', 'g', '<lambda>', '<lambda>', 'g']
+FUNC_NAMES = ['f', 'f', 'g', '<lambda>', '<lambda>', 'g',
+              'h', 'h', '<lambda>', '<lambda>', 'method', 'method', 'tagged', 'tagged', 'e', 'e']
+NF = len(FUNC_NAMES)
+# functions that are easily mistaken for one another: same name, and from index
+# 6 on also the same code object / source / underlying function
+SIBLING = {0: 1, 1: 0, 2: 5, 5: 2, 3: 4, 4: 3, 6: 7, 7: 6, 8: 9, 9: 8, 10: 11, 11: 10,
+           12: 13, 13: 12, 14: 15, 15: 14}
 MKKEYS = ['k0', 'k1', 'k2']            # keyword arguments of make()
 SUBKEYS = ['env', 'umask']             # subprocess arguments
 NSLOTS = {'use': 1, 'map': 2, 'make': 1, 'stats': 1}
@@ -112,6 +118,33 @@ def make_funcs():
     part = functools.partial(tagged, 5)
     functools.update_wrapper(part, g)
     funcs.append(part)
+
+    # different functions that share ONE code object (or source, or underlying
+    # function): the function of a request is the function OBJECT
+    def make(k):                       # closures of one factory function
+        def h(*args, **kwargs):
+            return ('F', k, args, kwargs)
+        return h
+    funcs += [make(6), make(7)]
+    funcs += [lambda *args, i=i, **kwargs: ('F', i, args, kwargs)     # lambdas of one loop
+              for i in (8, 9)]
+
+    class Obj:
+        def __init__(self, tag):
+            self.tag = tag
+
+        def method(self, *args, **kwargs):
+            return ('F', self.tag, args, kwargs)
+    funcs += [Obj(10).method, Obj(11).method]                          # one method, two objects
+    for tag in (12, 13):                                               # partials of one function
+        part = functools.partial(tagged, tag)
+        functools.update_wrapper(part, tagged)
+        funcs.append(part)
+    for tag in (14, 15):                                               # exec of the same source
+        glob = {'TAG': tag}
+        exec("def e(*args, **kwargs):\n    return ('F', TAG, args, kwargs)\n", glob)  # noqa
+        funcs.append(glob['e'])
+    assert len(funcs) == NF and [fn.__name__ for fn in funcs] == FUNC_NAMES
     return funcs
 
 
@@ -930,6 +963,18 @@ def corpus():
         # two functions with the same name
         case([['use', 0, [[a, 0, None]], False, False, 'direct'],
               ['use', 1, [[a, 0, None]], False, False, 'direct']]),
+    ] + [
+        # different functions sharing a code object / source / underlying function,
+        # alone, under a map and as UseRun post-processing
+        case([['use', f1, [[a, 0, None]], False, False, 'stack'],
+              ['use', f2, [[a, 0, None]], False, False, 'stack'],
+              ['use', f1, [[a, 0, None]], False, False, 'using'],
+              ['map', 0, f1], ['map', 0, f2]], collect=[[['s', 0], ['s', 1]]])
+        for f1, f2 in ((6, 7), (8, 9), (10, 11), (12, 13), (14, 15))
+    ] + [
+        case([['userun', 0, mk(extra=[1]), None, 6], ['userun', 1, mk(extra=[1]), None, 7],
+              ['userun', 0, mk(extra=[1]), None, 7]],
+             useruns=({'fac': 0, 'posts': [8]}, {'fac': 0, 'posts': [9]})),
         # task_stats / test_stats with the same name
         case([['stats', 'task', 'n', [a]], ['stats', 'test', 'n', [b]], ['stats', 'task', 'n', [b]]],
              collect=[[['s', 0]], [['s', 0], ['s', 1]]]),
@@ -963,6 +1008,13 @@ def corpus():
     return out
 
 
+def pick_f(rng, near=None):
+    '''a function of the alphabet; with ``near`` mostly its look-alike'''
+    if near is not None and rng.random() < 0.6:
+        return SIBLING[near]
+    return rng.randrange(NF)
+
+
 def gen_case(rng):
     nb = rng.choice([1, 2, 2, 3, 4])
     names = ['a', 'b', 'c', 'a,b', 'a'] if rng.random() < 0.35 else ['a', 'b', 'c', 'd', 'e']
@@ -980,7 +1032,7 @@ def gen_case(rng):
                      'kwargs': [[0, rng.randint(0, 1)], [1, rng.randint(0, 1)]]
                      + ([[2, 0]] if rng.random() < 0.2 else []),
                      'tmpl': rng.choice([[0, 1], [0, 1], [1], [1, 0]])})
-    useruns = [{'fac': rng.randrange(nf), 'posts': [rng.randrange(6) for _ in range(rng.choice([0, 1, 1, 2]))]}
+    useruns = [{'fac': rng.randrange(nf), 'posts': [pick_f(rng) for _ in range(rng.choice([0, 1, 1, 2]))]}
                for _ in range(rng.choice([0, 1, 1, 2]))]
     case = {'base': base, 'facs': facs, 'useruns': useruns, 'ops': [], 'collect': []}
     nops = rng.randint(2, 12)
@@ -1006,18 +1058,18 @@ def gen_case(rng):
     def fresh():
         r = rng.random()
         if r < 0.42:
-            return ['use', rng.randrange(6), [inj() for _ in range(rng.choice([1, 1, 1, 2, 2, 3]))],
+            return ['use', pick_f(rng), [inj() for _ in range(rng.choice([1, 1, 1, 2, 2, 3]))],
                     rng.random() < 0.25, rng.random() < 0.15, rng.choice(['stack', 'stack', 'direct', 'using'])]
         if r < 0.54:
             cands = [k for k, o in enumerate(case['ops']) if o[0] in ('use', 'map', 'userun')]
             if cands:
-                return ['map', rng.choice(cands), rng.randrange(6)]
-            return ['use', rng.randrange(6), [inj()], False, False, 'stack']
+                return ['map', rng.choice(cands), pick_f(rng)]
+            return ['use', pick_f(rng), [inj()], False, False, 'stack']
         if r < 0.76:
             return ['make', rng.randrange(nf), mk()]
         if r < 0.90 and useruns:
             return ['userun', rng.randrange(len(useruns)), mk(), rng.choice([None, None, 0, 1]),
-                    rng.randrange(6)]
+                    pick_f(rng)]
         return ['stats', rng.choice(['task', 'test']), rng.choice(['n', 'n', 'm']),
                 [ref() for _ in range(rng.choice([1, 1, 2, 3]))]]
 
@@ -1031,7 +1083,7 @@ def gen_case(rng):
             what = rng.randrange(7)
             j = rng.randrange(len(op[2]))
             if what == 0:
-                op[1] = rng.randrange(6)
+                op[1] = pick_f(rng, op[1])
             elif what == 1:
                 op[2][j][0] = ref()
             elif what == 2:
@@ -1047,7 +1099,7 @@ def gen_case(rng):
             op[5] = rng.choice(['stack', 'direct', 'using'])
         elif kind == 'map':
             if rng.random() < 0.5:
-                op[2] = rng.randrange(6)
+                op[2] = pick_f(rng, op[2])
             else:
                 op[1] = rng.choice([k for k, o in enumerate(case['ops'])
                                     if o[0] in ('use', 'map', 'userun')])
@@ -1079,7 +1131,7 @@ def gen_case(rng):
                 if rng.random() < 0.5:
                     op[3] = rng.choice([None, 0, 1])
                 else:
-                    op[4] = rng.randrange(6)
+                    op[4] = pick_f(rng, op[4])
         elif kind == 'stats':
             what = rng.randrange(3)
             if what == 0:
@@ -1109,8 +1161,9 @@ def gen_case(rng):
 
 RULE = ('corpus (the reproduced cache collisions, stacked decorators, map/UseRun chains, name '
         'clashes, a dependency cycle) + random histories of 2..12 operations (use / map / make / '
-        'userun / task_stats / test_stats) over 6 functions (two named f, two lambdas, a partial '
-        'named g), 1..4 hand-made tasks, 1..3 factories (same-named ones), keys, positional / '
+        'userun / task_stats / test_stats) over 16 functions (two named f, two lambdas, a partial '
+        'named g; pairs sharing one code object: closures of one factory, lambdas of one loop, one '
+        'method bound to two objects, partials of one function, exec of one source), 1..4 hand-made tasks, 1..3 factories (same-named ones), keys, positional / '
         'keyword, hard / soft, serialize; 45% of the operations repeat an earlier one identically '
         'or with one component changed; non-trivial = some request is served from a cache and at '
         'least two tasks are generated; distinct by case content')
@@ -1122,7 +1175,7 @@ def run(ctx):
     rng = ctx.rng
     cases = corpus()
     ctx.count('corpus', len(cases))
-    nrand = 1500 if ctx.tier == 'quick' else 20000
+    nrand = 1200 if ctx.tier == 'quick' else 20000
     cases += [gen_case(rng) for _ in range(nrand)]
     outroot = os.path.join(ctx.wd(), 'out')
     os.makedirs(outroot, exist_ok=True)
